@@ -440,6 +440,7 @@ fn run_script(script: &[&str], n: usize) {
     let cfg = Cfg { kv: kvs(cfgline) };
     let univ = geti_d(&cfg.kv, "univ", 4);
     let index_size = geti_d(&cfg.kv, "index", 4096) as usize;
+    let settle = geti_d(&cfg.kv, "settle", 0);
     let dir = scratch().join(format!("verif-hs-{}-{}", std::process::id(), n));
     let crashdir = scratch().join(format!("verif-hs-{}-{}-crash", std::process::id(), n));
     let _ = std::fs::remove_dir_all(&dir);
@@ -499,11 +500,17 @@ fn run_script(script: &[&str], n: usize) {
                         }
                         "get" => {
                             let k = geti(&kv, "k");
-                            match hh.as_ref().unwrap().get(&k).await {
+                            let r = match hh.as_ref().unwrap().get(&k).await {
                                 Ok(Some(e)) => format!("hit:{}:{:?}", show(e.value()), e.source()),
                                 Ok(None) => "miss".into(),
                                 Err(e) => format!("err:{:?}", e.kind()),
+                            };
+                            // `settle`: let the fetch task that served the lookup finish and drop its handle, so that
+                            // what the next step sees (an entry still referenced cannot be evicted) does not depend on timing
+                            if settle > 0 {
+                                tokio::time::sleep(Duration::from_millis(settle)).await;
                             }
+                            r
                         }
                         "gof" => {
                             let (k, ver, size) = (geti(&kv, "k"), geti(&kv, "ver"), geti_d(&kv, "size", 64) as usize);
@@ -518,10 +525,14 @@ fn run_script(script: &[&str], n: usize) {
                                 })
                                 .await;
                             let ran = fetched.load(Ordering::SeqCst) - before;
-                            match r {
+                            let r = match r {
                                 Ok(e) => format!("hit:{}:{:?}:fetched={}", show(e.value()), e.source(), ran),
                                 Err(e) => format!("err:{:?}", e.kind()),
+                            };
+                            if settle > 0 {
+                                tokio::time::sleep(Duration::from_millis(settle)).await;
                             }
+                            r
                         }
                         "rm" => {
                             hh.as_ref().unwrap().remove(&geti(&kv, "k"));
@@ -536,7 +547,17 @@ fn run_script(script: &[&str], n: usize) {
                             "ok".into()
                         }
                         "memevict" => {
-                            hh.as_ref().unwrap().memory().evict_all();
+                            // an entry that is still referenced (a fetch task that has not yet dropped its handle) cannot
+                            // be evicted: with `settle` set, repeat until memory is empty so that the outcome is not a
+                            // matter of timing
+                            let hy = hh.as_ref().unwrap();
+                            hy.memory().evict_all();
+                            let mut n = 0;
+                            while settle > 0 && hy.memory().usage() > 0 && n < 200 {
+                                tokio::time::sleep(Duration::from_millis(1)).await;
+                                hy.memory().evict_all();
+                                n += 1;
+                            }
                             "ok".into()
                         }
                         "hold" => {
